@@ -964,4 +964,806 @@ theorem runMsgs_perm (l1 : List Msg) : ∀ (l2 : List Msg) (g : Graph), l1.Perm 
     · intro y hy
       exact noReplaceMsg_step g a y (hc a (by simp) y (by simp [hy])) (hnr a (by simp)) (hnr y (by simp [hy]))
 
+/-! ### rejected messages, verification -/
+
+def Outcome.isReject : Outcome → Bool
+  | .reject _ => true
+  | _ => false
+
+theorem addChannelBetweenNodes_reject {g : Graph} {scid : Nat} {c : ChanInfo} {b : Bool} {r : Reject}
+    (h : (addChannelBetweenNodes g scid c b).2 = .reject r) : (addChannelBetweenNodes g scid c b).1 = g := by
+  unfold addChannelBetweenNodes at h ⊢
+  split at h
+  · split at h
+    · cases h
+    · rename_i hb; simp [hb]
+  · cases h
+
+theorem applyChanAnn_reject {g : Graph} {a : ChanAnn} {r : Reject}
+    (h : (applyChanAnn g a).2 = .reject r) : (applyChanAnn g a).1 = g := by
+  unfold applyChanAnn at h ⊢
+  cases hp : chanAnnPre g a with
+  | some r' => rfl
+  | none =>
+    simp only [hp] at h ⊢
+    by_cases h1 : (a.verify && !a.sigsOk) = true
+    · simp [h1]
+    · simp only [h1, if_false] at h ⊢
+      by_cases h2 : (g.removedChannels.contains a.scid || g.removedNodes.contains a.n1
+          || g.removedNodes.contains a.n2) = true
+      · simp [h2]
+      · simp only [h2, if_false] at h ⊢
+        cases hu : a.utxo with
+        | unknownTx => rfl
+        | noLookup => simp only [hu] at h ⊢; exact addChannelBetweenNodes_reject h
+        | value v => simp only [hu] at h ⊢; exact addChannelBetweenNodes_reject h
+
+theorem applyChanUpd_reject {g : Graph} {u : ChanUpd} {r : Reject}
+    (h : (applyChanUpd g u).2 = .reject r) : (applyChanUpd g u).1 = g := by
+  unfold applyChanUpd at h ⊢
+  repeat' split
+  all_goals first | rfl | (simp_all)
+
+theorem applyNodeAnn_reject {g : Graph} {n : NodeAnn} {r : Reject}
+    (h : (applyNodeAnn g n).2 = .reject r) : (applyNodeAnn g n).1 = g := by
+  unfold applyNodeAnn at h ⊢
+  repeat' split
+  all_goals first | rfl | (simp_all)
+
+theorem applyMsg_reject {g : Graph} {m : Msg} {r : Reject}
+    (h : (applyMsg g m).2 = .reject r) : (applyMsg g m).1 = g := by
+  cases m with
+  | chanAnn a => exact applyChanAnn_reject h
+  | chanUpd u => exact applyChanUpd_reject h
+  | nodeAnn n => exact applyNodeAnn_reject h
+
+/-- was signature verification requested for this delivery? -/
+def verifyRequested : Msg → Bool
+  | .chanAnn a => a.verify
+  | .chanUpd u => u.verify
+  | .nodeAnn n => n.verify
+
+/-- every signature the library has to check is valid: the four signatures of an announcement; the
+    signature of an update made by the node the graph stores for that direction; the signature of
+    a node announcement made by the announced node -/
+def msgVerified (g : Graph) : Msg → Prop
+  | .chanAnn a => a.sigN1 = true ∧ a.sigN2 = true ∧ a.sigB1 = true ∧ a.sigB2 = true
+  | .chanUpd u => ∃ c, g.channels.get u.scid = some c ∧ u.signer = c.dirNode u.dir
+  | .nodeAnn n => n.sigOk = true
+
+theorem applyMsg_changed_verified (g : Graph) (m : Msg) (hv : verifyRequested m = true)
+    (hch : (applyMsg g m).1 ≠ g) : msgVerified g m := by
+  cases m with
+  | chanAnn a =>
+    simp only [verifyRequested] at hv
+    simp only [msgVerified]
+    apply Classical.byContradiction
+    intro hn
+    apply hch
+    have hs : a.sigsOk = false := by
+      simp only [ChanAnn.sigsOk]
+      cases h1 : a.sigN1 <;> cases h2 : a.sigN2 <;> cases h3 : a.sigB1 <;> cases h4 : a.sigB2 <;> simp_all
+    simp only [applyMsg]
+    unfold applyChanAnn
+    split
+    · rfl
+    · simp [hv, hs]
+  | chanUpd u =>
+    simp only [verifyRequested] at hv
+    simp only [msgVerified]
+    apply Classical.byContradiction
+    intro hn
+    apply hch
+    simp only [applyMsg]
+    rw [applyChanUpd_fst]
+    cases hg : g.channels.get u.scid with
+    | none => simp only [updChanO, Option.map_none]; rw [← hg, SMap.set_get_self]
+    | some c =>
+      have hne : u.signer ≠ c.dirNode u.dir := fun e => hn ⟨c, hg, e⟩
+      have hst : staticOk c u = false := by simp [staticOk, hv, hne]
+      have : updC c u = c := by rw [updC_eq, hst]; rfl
+      simp only [updChanO, Option.map_some, this, ite_self]
+      rw [← hg, SMap.set_get_self]
+  | nodeAnn n =>
+    simp only [verifyRequested] at hv
+    simp only [msgVerified]
+    apply Classical.byContradiction
+    intro hn
+    apply hch
+    have hs : n.sigOk = false := by simpa using hn
+    simp only [applyMsg]
+    rw [applyNodeAnn_fst]
+    have : ∀ ni, updN ni n = ni := by intro ni; simp [updN, nodeStaticOk, hv, hs]
+    simp only [this, Option.map_id']
+    rw [SMap.set_get_self]
+
+/-! ### stored timestamps never go back -/
+
+/-- a stored direction is only ever replaced by a strictly newer one -/
+def dirMono (o o' : Option UpdInfo) : Prop :=
+  ∀ u u', o = some u → o' = some u' → u.lastUpdate < u'.lastUpdate ∨ u' = u
+def chanMono (c c' : ChanInfo) : Prop := dirMono c.d12 c'.d12 ∧ dirMono c.d21 c'.d21
+def annMono (o o' : Option NodeAnnInfo) : Prop :=
+  ∀ a a', o = some a → o' = some a' → a.lastUpdate < a'.lastUpdate ∨ a' = a
+
+theorem dirMono_refl (o : Option UpdInfo) : dirMono o o := by
+  intro u u' h h'; rw [h] at h'; cases h'; exact Or.inr rfl
+theorem dirMono_none (o : Option UpdInfo) : dirMono o none := by
+  intro u u' _ h'; cases h'
+theorem chanMono_refl (c : ChanInfo) : chanMono c c := ⟨dirMono_refl _, dirMono_refl _⟩
+theorem annMono_refl (o : Option NodeAnnInfo) : annMono o o := by
+  intro u u' h h'; rw [h] at h'; cases h'; exact Or.inr rfl
+
+theorem chanMono_updC (c : ChanInfo) (u : ChanUpd) : chanMono c (updC c u) := by
+  rw [updC_eq]
+  split
+  · rename_i h
+    simp only [Bool.and_eq_true] at h
+    have hn := h.2
+    cases hd : u.dir
+    · simp only [hd, ChanInfo.dir, Bool.false_eq_true, if_false] at hn
+      refine ⟨?_, dirMono_refl _⟩
+      intro x x' hx hx'
+      simp only [ChanInfo.setDir, Bool.false_eq_true, if_false, Option.some.injEq] at hx'
+      subst hx'
+      rw [hx] at hn
+      left; simpa [newer] using hn
+    · simp only [hd, ChanInfo.dir, if_true] at hn
+      refine ⟨dirMono_refl _, ?_⟩
+      intro x x' hx hx'
+      simp only [ChanInfo.setDir, if_true, Option.some.injEq] at hx'
+      subst hx'
+      rw [hx] at hn
+      left; simpa [newer] using hn
+  · exact chanMono_refl c
+
+theorem addChannelBetweenNodes_channels (g : Graph) (scid : Nat) (c : ChanInfo) (b : Bool) (s : Nat)
+    (c' : ChanInfo) (h : (addChannelBetweenNodes g scid c b).1.channels.get s = some c') :
+    g.channels.get s = some c' ∨ c' = c := by
+  unfold addChannelBetweenNodes at h
+  split at h
+  · split at h
+    · simp only [SMap.get_insert] at h
+      split at h
+      · right; cases h; rfl
+      · exact Or.inl h
+    · exact Or.inl h
+  · simp only [SMap.get_insert] at h
+    split at h
+    · right; cases h; rfl
+    · exact Or.inl h
+
+theorem applyChanAnn_channels (g : Graph) (a : ChanAnn) (s : Nat) (c' : ChanInfo)
+    (h : (applyChanAnn g a).1.channels.get s = some c') :
+    g.channels.get s = some c' ∨ (c'.d12 = none ∧ c'.d21 = none) := by
+  unfold applyChanAnn at h
+  split at h
+  · exact Or.inl h
+  · split at h
+    · exact Or.inl h
+    · split at h
+      · exact Or.inl h
+      · split at h
+        · exact Or.inl h
+        · rcases addChannelBetweenNodes_channels _ _ _ _ _ _ h with h | h
+          · exact Or.inl h
+          · right; subst h; exact ⟨rfl, rfl⟩
+        · rcases addChannelBetweenNodes_channels _ _ _ _ _ _ h with h | h
+          · exact Or.inl h
+          · right; subst h; exact ⟨rfl, rfl⟩
+
+theorem nodeFail_fold_channels (id now : Nat) (l : List Nat)
+    (st : SMap ChanInfo × SMap NodeInfo × SMap Nat) (s : Nat) (c' : ChanInfo)
+    (h : (l.foldl (nodeFailStep id now) st).1.get s = some c') : st.1.get s = some c' := by
+  induction l generalizing st with
+  | nil => exact h
+  | cons x t ih =>
+    have := ih _ h
+    unfold nodeFailStep at this
+    split at this
+    · simp only [SMap.get_erase] at this
+      split at this
+      · cases this
+      · exact this
+    · exact this
+
+theorem pruneDir_mono (minT : Nat) (o : Option UpdInfo) : dirMono o (pruneDir minT o) := by
+  intro u u' h h'
+  rw [h] at h'
+  simp only [pruneDir] at h'
+  split at h'
+  · cases h'
+  · cases h'; exact Or.inr rfl
+
+theorem pruneChan_mono (minT : Nat) (c c' : ChanInfo) (h : pruneChan minT c = some c') : chanMono c c' := by
+  simp only [pruneChan] at h
+  split at h
+  · cases h
+  · cases h; exact ⟨pruneDir_mono _ _, pruneDir_mono _ _⟩
+
+theorem step_chanMono (g : Graph) (op : Op) (s : Nat) (c c' : ChanInfo)
+    (h : g.channels.get s = some c) (h' : (step g op).1.channels.get s = some c') : chanMono c c' := by
+  cases op with
+  | msg m =>
+    cases m with
+    | chanAnn a =>
+      rcases applyChanAnn_channels g a s c' h' with e | e
+      · rw [h] at e; cases e; exact chanMono_refl c
+      · exact ⟨by rw [e.1]; exact dirMono_none _, by rw [e.2]; exact dirMono_none _⟩
+    | chanUpd u =>
+      simp only [step, applyMsg] at h'
+      rw [applyChanUpd_fst] at h'
+      simp only [SMap.get_set] at h'
+      split at h'
+      · rename_i hs
+        rw [← hs, h] at h'
+        simp only [updChanO, Option.map_some, Option.some.injEq] at h'
+        subst h'
+        split
+        · exact chanMono_updC c u
+        · exact chanMono_refl c
+      · rw [h] at h'; cases h'; exact chanMono_refl c
+    | nodeAnn n =>
+      simp only [step, applyMsg] at h'
+      rw [applyNodeAnn_fst] at h'
+      rw [h] at h'; cases h'; exact chanMono_refl c
+  | chanPartial scid cap recv n1 n2 =>
+    simp only [step, applyChanPartial] at h'
+    split at h'
+    · rw [h] at h'; cases h'; exact chanMono_refl c
+    · rcases addChannelBetweenNodes_channels _ _ _ _ _ _ h' with e | e
+      · rw [h] at e; cases e; exact chanMono_refl c
+      · subst e; exact ⟨dirMono_none _, dirMono_none _⟩
+  | failPermanent scid now =>
+    simp only [step, failPermanent] at h'
+    split at h'
+    · simp only [SMap.get_erase] at h'
+      split at h'
+      · cases h'
+      · rw [h] at h'; cases h'; exact chanMono_refl c
+    · rw [h] at h'; cases h'; exact chanMono_refl c
+  | nodeFailPermanent id now =>
+    simp only [step, nodeFailPermanent] at h'
+    split at h'
+    · have := nodeFail_fold_channels _ _ _ _ _ _ h'
+      rw [h] at this; cases this; exact chanMono_refl c
+    · rw [h] at h'; cases h'; exact chanMono_refl c
+  | pruneAt t =>
+    simp only [step, pruneAt] at h'
+    split at h'
+    · rw [h] at h'; cases h'; exact chanMono_refl c
+    · split at h'
+      · rw [h] at h'; cases h'; exact chanMono_refl c
+      · simp only [SMap.get_filterMap, h, Option.bind_some] at h'
+        exact pruneChan_mono _ _ _ h'
+
+/-- node announcements: what a delivery does to the stored announcement of a node entry -/
+theorem annMono_updN (ni : NodeInfo) (n : NodeAnn) : annMono ni.ann (updN ni n).ann := by
+  unfold updN
+  split
+  · rename_i h
+    simp only [Bool.and_eq_true] at h
+    intro a a' ha ha'
+    simp only [Option.some.injEq] at ha'
+    subst ha'
+    have := h.2
+    rw [ha] at this
+    left; simpa [newerN] using this
+  · exact annMono_refl _
+
+/-- what `remove_from_node!` leaves of a node entry -/
+def removeFrom (ni : NodeInfo) (scid : Nat) : Option NodeInfo :=
+  if (ni.channels.erase scid).isEmpty then none else some { ni with channels := ni.channels.erase scid }
+
+theorem get_removeChanFromNode (m : SMap NodeInfo) (id scid k : Nat) :
+    (removeChanFromNode m id scid).get k =
+      if k = id then (m.get id).bind (fun ni => removeFrom ni scid) else m.get k := by
+  unfold removeChanFromNode removeFrom
+  cases hm : m.get id with
+  | none =>
+    simp only [Option.bind_none]
+    split
+    · rename_i h; rw [h, hm]
+    · rfl
+  | some ni =>
+    simp only [Option.bind_some]
+    split <;> simp
+
+/-- node entries of `m'` carry the announcement they had in `m`, or none -/
+def AnnPres (m m' : SMap NodeInfo) : Prop :=
+  ∀ id ni', m'.get id = some ni' → ni'.ann = none ∨ ∃ ni, m.get id = some ni ∧ ni'.ann = ni.ann
+
+theorem AnnPres.refl (m : SMap NodeInfo) : AnnPres m m := fun _ ni' h => Or.inr ⟨ni', h, rfl⟩
+
+theorem AnnPres.trans {m1 m2 m3 : SMap NodeInfo} (h12 : AnnPres m1 m2) (h23 : AnnPres m2 m3) : AnnPres m1 m3 := by
+  intro id ni3 h3
+  rcases h23 id ni3 h3 with h | ⟨ni2, h2, e2⟩
+  · exact Or.inl h
+  · rcases h12 id ni2 h2 with h | ⟨ni1, h1, e1⟩
+    · left; rw [e2, h]
+    · right; exact ⟨ni1, h1, by rw [e2, e1]⟩
+
+theorem AnnPres_add (m : SMap NodeInfo) (id scid : Nat) : AnnPres m (addChanToNode m id scid) := by
+  intro k ni' h
+  rw [get_addChanToNode] at h
+  split at h
+  · rename_i hk
+    simp only [Option.some.injEq] at h
+    subst h
+    cases hm : m.get id with
+    | none => left; rfl
+    | some ni => right; exact ⟨ni, by rw [hk, hm], rfl⟩
+  · exact Or.inr ⟨ni', h, rfl⟩
+
+theorem AnnPres_remove (m : SMap NodeInfo) (id scid : Nat) : AnnPres m (removeChanFromNode m id scid) := by
+  intro k ni' h
+  rw [get_removeChanFromNode] at h
+  split at h
+  · rename_i hk
+    cases hm : m.get id with
+    | none => rw [hm] at h; cases h
+    | some ni =>
+      rw [hm] at h
+      simp only [Option.bind_some, removeFrom] at h
+      split at h
+      · cases h
+      · cases h; right; exact ⟨ni, by rw [hk, hm], rfl⟩
+  · exact Or.inr ⟨ni', h, rfl⟩
+
+theorem AnnPres_erase (m : SMap NodeInfo) (id : Nat) : AnnPres m (m.erase id) := by
+  intro k ni' h
+  rw [SMap.get_erase] at h
+  split at h
+  · cases h
+  · exact Or.inr ⟨ni', h, rfl⟩
+
+theorem addChannelBetweenNodes_AnnPres (g : Graph) (scid : Nat) (c : ChanInfo) (b : Bool) :
+    AnnPres g.nodes (addChannelBetweenNodes g scid c b).1.nodes := by
+  unfold addChannelBetweenNodes
+  split
+  · split
+    · exact (((AnnPres_remove _ _ _).trans (AnnPres_remove _ _ _)).trans (AnnPres_add _ _ _)).trans (AnnPres_add _ _ _)
+    · exact AnnPres.refl _
+  · exact (AnnPres_add _ _ _).trans (AnnPres_add _ _ _)
+
+theorem applyChanAnn_AnnPres (g : Graph) (a : ChanAnn) : AnnPres g.nodes (applyChanAnn g a).1.nodes := by
+  unfold applyChanAnn
+  split
+  · exact AnnPres.refl _
+  · split
+    · exact AnnPres.refl _
+    · split
+      · exact AnnPres.refl _
+      · split
+        · exact AnnPres.refl _
+        · exact addChannelBetweenNodes_AnnPres _ _ _ _
+        · exact addChannelBetweenNodes_AnnPres _ _ _ _
+
+theorem nodeFail_fold_AnnPres (id now : Nat) (l : List Nat) (st : SMap ChanInfo × SMap NodeInfo × SMap Nat) :
+    AnnPres st.2.1 (l.foldl (nodeFailStep id now) st).2.1 := by
+  induction l generalizing st with
+  | nil => exact AnnPres.refl _
+  | cons x t ih =>
+    refine AnnPres.trans ?_ (ih _)
+    unfold nodeFailStep
+    split
+    · exact AnnPres_remove _ _ _
+    · exact AnnPres.refl _
+
+theorem step_annMono (g : Graph) (op : Op) (id : Nat) (ni ni' : NodeInfo)
+    (h : g.nodes.get id = some ni) (h' : (step g op).1.nodes.get id = some ni') : annMono ni.ann ni'.ann := by
+  have fromPres : AnnPres g.nodes (step g op).1.nodes → annMono ni.ann ni'.ann := by
+    intro hp
+    rcases hp id ni' h' with e | ⟨n0, h0, e⟩
+    · rw [e]; intro a a' _ ha'; cases ha'
+    · rw [h] at h0; cases h0; rw [e]; exact annMono_refl _
+  cases op with
+  | msg m =>
+    cases m with
+    | chanAnn a => exact fromPres (applyChanAnn_AnnPres g a)
+    | chanUpd u =>
+      apply fromPres
+      simp only [step, applyMsg]; rw [applyChanUpd_fst]; exact AnnPres.refl _
+    | nodeAnn n =>
+      simp only [step, applyMsg] at h'
+      rw [applyNodeAnn_fst] at h'
+      simp only [SMap.get_set] at h'
+      split at h'
+      · rename_i hs
+        rw [← hs, h] at h'
+        simp only [Option.map_some, Option.some.injEq] at h'
+        subst h'
+        exact annMono_updN ni n
+      · rw [h] at h'; cases h'; exact annMono_refl _
+  | chanPartial scid cap recv n1 n2 =>
+    apply fromPres
+    simp only [step, applyChanPartial]
+    split
+    · exact AnnPres.refl _
+    · exact addChannelBetweenNodes_AnnPres _ _ _ _
+  | failPermanent scid now =>
+    apply fromPres
+    simp only [step, failPermanent]
+    split
+    · exact (AnnPres_remove _ _ _).trans (AnnPres_remove _ _ _)
+    · exact AnnPres.refl _
+  | nodeFailPermanent nid now =>
+    apply fromPres
+    simp only [step, nodeFailPermanent]
+    split
+    · exact (AnnPres_erase _ _).trans (nodeFail_fold_AnnPres _ _ _ _)
+    · exact AnnPres.refl _
+  | pruneAt t =>
+    apply fromPres
+    simp only [step, pruneAt]
+    split
+    · exact AnnPres.refl _
+    · split
+      · exact AnnPres.refl _
+      · intro k nk hk
+        simp only [SMap.get_filterMap] at hk
+        cases hg : g.nodes.get k with
+        | none => rw [hg] at hk; cases hk
+        | some n0 =>
+          rw [hg] at hk
+          simp only [Option.bind_some, pruneNode] at hk
+          split at hk
+          · cases hk
+          · cases hk; exact Or.inr ⟨n0, rfl, rfl⟩
+
+/-! ### duplicates -/
+
+theorem SMap.set_set {α : Type} (m : SMap α) (k : Nat) (v w : Option α) : (m.set k v).set k w = m.set k w := by
+  apply SMap.ext; intro k'; simp only [SMap.get_set]; split <;> rfl
+
+theorem updC_idem (c : ChanInfo) (u : ChanUpd) : updC (updC c u) u = updC c u := by
+  rw [updC_eq (updC c u), staticOk_updC, updC_eq c u]
+  split
+  · have : newer ((c.setDir u.dir (some u.info)).dir u.dir) u.ts = false := by
+      simp [dir_setDir, newer]
+    rw [this]; simp
+  · rfl
+
+theorem updN_idem (ni : NodeInfo) (n : NodeAnn) : updN (updN ni n) n = updN ni n := by
+  unfold updN
+  split
+  · simp [newerN]
+  · rfl
+
+theorem applyChanUpd_idem (g : Graph) (u : ChanUpd) :
+    (applyChanUpd (applyChanUpd g u).1 u).1 = (applyChanUpd g u).1 := by
+  rw [applyChanUpd_fst (applyChanUpd g u).1, applyChanUpd_fst g u]
+  refine Graph.ext' ?_ rfl rfl rfl
+  simp only [SMap.get_set, if_true, SMap.set_set]
+  congr 1
+  cases g.channels.get u.scid with
+  | none => rfl
+  | some c =>
+    simp only [updChanO, Option.map_some]
+    cases globalOk u <;> simp [updC_idem]
+
+theorem applyNodeAnn_idem (g : Graph) (n : NodeAnn) :
+    (applyNodeAnn (applyNodeAnn g n).1 n).1 = (applyNodeAnn g n).1 := by
+  rw [applyNodeAnn_fst (applyNodeAnn g n).1, applyNodeAnn_fst g n]
+  refine Graph.ext' rfl ?_ rfl rfl
+  simp only [SMap.get_set, if_true, SMap.set_set]
+  congr 1
+  cases g.nodes.get n.node with
+  | none => rfl
+  | some ni => simp [updN_idem]
+
+theorem addChannelBetweenNodes_accept {g : Graph} {scid : Nat} {c : ChanInfo} {b : Bool}
+    (h : (addChannelBetweenNodes g scid c b).2 = .accept) :
+    (addChannelBetweenNodes g scid c b).1.channels.get scid = some c := by
+  unfold addChannelBetweenNodes at h ⊢
+  cases hg : g.channels.get scid with
+  | none => simp
+  | some old =>
+    cases b
+    · simp [hg] at h
+    · simp
+
+theorem applyChanAnn_outcome (g : Graph) (a : ChanAnn) :
+    (∃ r, (applyChanAnn g a).2 = .reject r) ∨
+    ((applyChanAnn g a).2 = .accept ∧ a.n1 < a.n2 ∧ a.sameBtc = false ∧ a.chainOk = true ∧
+      (applyChanAnn g a).1.channels.get a.scid = some (annChan a)) := by
+  unfold applyChanAnn
+  cases hp : chanAnnPre g a with
+  | some r => left; exact ⟨r, rfl⟩
+  | none =>
+    have hst : a.n1 < a.n2 ∧ a.sameBtc = false ∧ a.chainOk = true := by
+      unfold chanAnnPre at hp
+      split at hp
+      · cases hp
+      · split at hp
+        · cases hp
+        · split at hp
+          · cases hp
+          · rename_i h1 h2 h3
+            exact ⟨by omega, by simpa using h2, by simpa using h3⟩
+    simp only []
+    split
+    · left; exact ⟨_, rfl⟩
+    · split
+      · left; exact ⟨_, rfl⟩
+      · cases hu : a.utxo with
+        | unknownTx => left; exact ⟨_, rfl⟩
+        | noLookup =>
+          simp only []
+          cases ho : (addChannelBetweenNodes g a.scid
+            { node1 := a.n1, node2 := a.n2, capacity := none, d12 := none, d21 := none,
+              recvTime := a.now, hasMsg := a.verify } false).2 with
+          | reject r => left; exact ⟨r, rfl⟩
+          | accept =>
+            right
+            refine ⟨rfl, hst.1, hst.2.1, hst.2.2, ?_⟩
+            have := addChannelBetweenNodes_accept ho
+            simpa [annChan, hu] using this
+          | done =>
+            exfalso
+            unfold addChannelBetweenNodes at ho
+            split at ho
+            · split at ho <;> cases ho
+            · cases ho
+        | value v =>
+          simp only []
+          cases ho : (addChannelBetweenNodes g a.scid
+            { node1 := a.n1, node2 := a.n2, capacity := some v, d12 := none, d21 := none,
+              recvTime := a.now, hasMsg := a.verify } true).2 with
+          | reject r => left; exact ⟨r, rfl⟩
+          | accept =>
+            right
+            refine ⟨rfl, hst.1, hst.2.1, hst.2.2, ?_⟩
+            have := addChannelBetweenNodes_accept ho
+            simpa [annChan, hu] using this
+          | done =>
+            exfalso
+            unfold addChannelBetweenNodes at ho
+            split at ho
+            · split at ho <;> cases ho
+            · cases ho
+
+theorem applyChanAnn_idem (g : Graph) (a : ChanAnn) :
+    (applyChanAnn (applyChanAnn g a).1 a).1 = (applyChanAnn g a).1 := by
+  rcases applyChanAnn_outcome g a with ⟨r, hr⟩ | ⟨_, h1, h2, h3, hget⟩
+  · have e := applyChanAnn_reject hr
+    rw [e, e]
+  · generalize (applyChanAnn g a).1 = g1 at hget ⊢
+    cases hu : a.utxo with
+    | unknownTx =>
+      unfold applyChanAnn
+      simp only [hu]
+      repeat' split
+      all_goals rfl
+    | noLookup =>
+      have hpre : chanAnnPre g1 a = some .dupNonChainValidated := by
+        unfold chanAnnPre
+        have : ¬ a.n1 ≥ a.n2 := by omega
+        simp [this, h2, h3, hget, annChan, hu]
+      unfold applyChanAnn
+      simp [hpre]
+    | value v =>
+      have hpre : chanAnnPre g1 a = some .dupChainValidated := by
+        unfold chanAnnPre
+        have : ¬ a.n1 ≥ a.n2 := by omega
+        simp [this, h2, h3, hget, annChan, hu]
+      unfold applyChanAnn
+      simp [hpre]
+
+theorem applyMsg_idem (g : Graph) (m : Msg) : (applyMsg (applyMsg g m).1 m).1 = (applyMsg g m).1 := by
+  cases m with
+  | chanAnn a => exact applyChanAnn_idem g a
+  | chanUpd u => exact applyChanUpd_idem g u
+  | nodeAnn n => exact applyNodeAnn_idem g n
+
+/-! ### permanent failures -/
+
+theorem removeFrom_spec (ni ni' : NodeInfo) (scid : Nat) (h : removeFrom ni scid = some ni') :
+    ni'.channels.get scid = none ∧ ni'.channels.isEmpty = false ∧ ni'.ann = ni.ann ∧
+    ∀ s, s ≠ scid → ni'.channels.get s = ni.channels.get s := by
+  unfold removeFrom at h
+  split at h
+  · cases h
+  · rename_i he
+    cases h
+    refine ⟨by simp, by simpa using he, rfl, ?_⟩
+    intro s hs; simp [hs]
+
+/-- an endpoint entry after `remove_channel_in_nodes`: gone, or still there without the scid and
+    with at least one other channel -/
+theorem removeChanInNodes_endpoint (m : SMap NodeInfo) (c : ChanInfo) (scid id : Nat)
+    (hid : id = c.node1 ∨ id = c.node2) (ni' : NodeInfo)
+    (h : (removeChanInNodes m c scid).get id = some ni') :
+    ni'.channels.get scid = none ∧ ni'.channels.isEmpty = false := by
+  unfold removeChanInNodes at h
+  rw [get_removeChanFromNode] at h
+  split at h
+  · -- id = node2: the entry went through removeFrom
+    cases hm : (removeChanFromNode m c.node1 scid).get c.node2 with
+    | none => rw [hm] at h; cases h
+    | some n0 =>
+      rw [hm] at h
+      simp only [Option.bind_some] at h
+      have := removeFrom_spec n0 ni' scid h
+      exact ⟨this.1, this.2.1⟩
+  · rename_i hne
+    have hid1 : id = c.node1 := by
+      rcases hid with h1 | h2
+      · exact h1
+      · exact absurd h2 hne
+    rw [get_removeChanFromNode, if_pos hid1] at h
+    cases hm : m.get c.node1 with
+    | none => rw [hm] at h; cases h
+    | some n0 =>
+      rw [hm] at h
+      simp only [Option.bind_some] at h
+      have := removeFrom_spec n0 ni' scid h
+      exact ⟨this.1, this.2.1⟩
+
+theorem nodeFail_fold_spec (id now : Nat) (l : List Nat) (st : SMap ChanInfo × SMap NodeInfo × SMap Nat) :
+    (st.2.1.get id = none → (l.foldl (nodeFailStep id now) st).2.1.get id = none) ∧
+    (∀ s, st.1.get s = none → (l.foldl (nodeFailStep id now) st).1.get s = none) ∧
+    (∀ s, s ∈ l → (l.foldl (nodeFailStep id now) st).1.get s = none) ∧
+    (∀ s, st.2.2.get s = some now → (l.foldl (nodeFailStep id now) st).2.2.get s = some now) ∧
+    (∀ s, s ∈ l → st.1.get s ≠ none → (l.foldl (nodeFailStep id now) st).2.2.get s = some now) := by
+  induction l generalizing st with
+  | nil =>
+    exact ⟨fun h => h, fun _ h => h, fun _ h => absurd h (by simp), fun _ h => h, fun _ h => absurd h (by simp)⟩
+  | cons x t ih =>
+    have hstep := ih (nodeFailStep id now st x)
+    simp only [List.foldl_cons]
+    obtain ⟨i1, i2, i3, i4, i5⟩ := hstep
+    -- facts about one step
+    have s1 : st.2.1.get id = none → (nodeFailStep id now st x).2.1.get id = none := by
+      intro h
+      unfold nodeFailStep
+      split
+      · rename_i c hc
+        simp only
+        generalize (if id = c.node1 then c.node2 else c.node1) = other
+        rw [get_removeChanFromNode]
+        split
+        · rename_i hk; rw [← hk, h]; rfl
+        · exact h
+      · exact h
+    have s2 : ∀ s, st.1.get s = none → (nodeFailStep id now st x).1.get s = none := by
+      intro s h
+      unfold nodeFailStep
+      split
+      · simp only [SMap.get_erase]; split
+        · rfl
+        · exact h
+      · exact h
+    have s3 : (nodeFailStep id now st x).1.get x = none := by
+      unfold nodeFailStep
+      split
+      · simp
+      · rename_i h; exact h
+    have s4 : ∀ s, st.2.2.get s = some now → (nodeFailStep id now st x).2.2.get s = some now := by
+      intro s h
+      unfold nodeFailStep
+      split
+      · simp only [SMap.get_insert]; split
+        · rfl
+        · exact h
+      · exact h
+    have s5 : st.1.get x ≠ none → (nodeFailStep id now st x).2.2.get x = some now := by
+      intro h
+      unfold nodeFailStep
+      split
+      · simp
+      · rename_i hn; exact absurd hn h
+    have s6 : ∀ s, s ≠ x → (nodeFailStep id now st x).1.get s = st.1.get s := by
+      intro s hs
+      unfold nodeFailStep
+      split
+      · simp [hs]
+      · rfl
+    refine ⟨fun h => i1 (s1 h), fun s h => i2 s (s2 s h), ?_, fun s h => i4 s (s4 s h), ?_⟩
+    · intro s hs
+      simp only [List.mem_cons] at hs
+      rcases hs with h | h
+      · subst h; exact i2 _ s3
+      · exact i3 s h
+    · intro s hs hne
+      simp only [List.mem_cons] at hs
+      by_cases hx : s = x
+      · subst hx; exact i4 _ (s5 hne)
+      · rcases hs with h | h
+        · exact absurd h hx
+        · exact i5 s h (by rw [s6 s hx]; exact hne)
+
+/-! ### pruning -/
+
+theorem get_foldl_insert (l : List Nat) (t : Nat) (m : SMap Nat) (k : Nat) :
+    (l.foldl (fun m s => m.insert s t) m).get k = if k ∈ l then some t else m.get k := by
+  induction l generalizing m with
+  | nil => simp
+  | cons x r ih =>
+    simp only [List.foldl_cons, ih, SMap.get_insert, List.mem_cons]
+    by_cases h1 : k ∈ r
+    · simp [h1]
+    · by_cases h2 : k = x <;> simp [h1, h2]
+
+theorem prunedScid_mem_keys (g : Graph) (minT s : Nat) :
+    s ∈ g.channels.keys.filter (prunedScid g minT) ↔ prunedScid g minT s = true := by
+  simp only [List.mem_filter]
+  constructor
+  · exact fun h => h.2
+  · intro h
+    refine ⟨?_, h⟩
+    rw [SMap.mem_keys_iff]
+    unfold prunedScid at h
+    cases hg : g.channels.get s with
+    | none => rw [hg] at h; cases h
+    | some c => rfl
+
+theorem keepTracking_self (t : Nat) : keepTracking t t = some t := by
+  have : REMOVED_ENTRIES_TRACKING_AGE_LIMIT_SECS = 604800 := rfl
+  simp [keepTracking, this]
+
+theorem pruneAt_spec (g : Graph) (t : Nat) (h1 : t ≤ U32_MAX) (h2 : STALE_CHANNEL_UPDATE_AGE_LIMIT_SECS ≤ t) :
+    (∀ s, (pruneAt g t).channels.get s =
+        (g.channels.get s).bind (pruneChan (t - STALE_CHANNEL_UPDATE_AGE_LIMIT_SECS))) ∧
+    (∀ id, (pruneAt g t).nodes.get id =
+        (g.nodes.get id).bind (pruneNode g (t - STALE_CHANNEL_UPDATE_AGE_LIMIT_SECS))) ∧
+    (∀ s, (pruneAt g t).removedChannels.get s =
+        if prunedScid g (t - STALE_CHANNEL_UPDATE_AGE_LIMIT_SECS) s then some t
+        else (g.removedChannels.get s).bind (keepTracking t)) ∧
+    (∀ id, (pruneAt g t).removedNodes.get id = (g.removedNodes.get id).bind (keepTracking t)) := by
+  have e1 : ¬ t > U32_MAX := by omega
+  have e2 : ¬ t < STALE_CHANNEL_UPDATE_AGE_LIMIT_SECS := by omega
+  unfold pruneAt
+  simp only [e1, e2, if_false]
+  refine ⟨fun s => by simp, fun id => by simp, ?_, fun id => by simp⟩
+  intro s
+  simp only [SMap.get_filterMap, get_foldl_insert, prunedScid_mem_keys]
+  split
+  · simp [keepTracking_self]
+  · rfl
+
+theorem pruneAt_out_of_range (g : Graph) (t : Nat)
+    (h : t > U32_MAX ∨ t < STALE_CHANNEL_UPDATE_AGE_LIMIT_SECS) : pruneAt g t = g := by
+  unfold pruneAt
+  rcases h with h | h
+  · simp [h]
+  · by_cases h' : t > U32_MAX <;> simp [h, h']
+
+theorem pruneDir_eq_some (minT : Nat) (d : Option UpdInfo) (u : UpdInfo) :
+    pruneDir minT d = some u ↔ d = some u ∧ minT ≤ u.lastUpdate := by
+  cases d with
+  | none => simp [pruneDir]
+  | some x =>
+    simp only [pruneDir]
+    split
+    · rename_i h
+      constructor
+      · intro e; cases e
+      · rintro ⟨e, h'⟩; cases e; omega
+    · rename_i h
+      constructor
+      · intro e; cases e; exact ⟨rfl, by omega⟩
+      · rintro ⟨e, _⟩; cases e; rfl
+
+theorem pruneChan_eq_none (minT : Nat) (c : ChanInfo) :
+    pruneChan minT c = none ↔
+      ((pruneDir minT c.d12 = none ∨ pruneDir minT c.d21 = none) ∧ c.recvTime < minT) := by
+  simp only [pruneChan]
+  split
+  · rename_i h
+    simp only [Bool.and_eq_true, Bool.or_eq_true, Option.isNone_iff_eq_none, decide_eq_true_eq] at h
+    simp [h]
+  · rename_i h
+    simp only [Bool.and_eq_true, Bool.or_eq_true, Option.isNone_iff_eq_none, decide_eq_true_eq] at h
+    constructor
+    · intro e; cases e
+    · intro e; exact absurd e h
+
+theorem pruneChan_eq_some (minT : Nat) (c c' : ChanInfo) (h : pruneChan minT c = some c') :
+    c' = { c with d12 := pruneDir minT c.d12, d21 := pruneDir minT c.d21 } := by
+  simp only [pruneChan] at h
+  split at h
+  · cases h
+  · cases h; rfl
+
 end Ldk.Gossip
